@@ -763,6 +763,134 @@ def r12_8(prog: Program, chk: Check) -> None:
     chk.ob("R12.8", "suggested_type::get_shared_type::reads-the-mro", bool(reads), prog.site("suggested_type", gst), "get_shared_type must compute the shared base from the classes' MROs")
 
 
+# ------------------------------------------------------------------- R12.9
+def r12_9(prog: Program, chk: Check) -> None:
+    import multiprocessing as mp
+    import os as _os
+
+    from .c03 import _container_chunk
+
+    chk.rule(
+        "R12.9",
+        "the value API returns instead of raising, as a finite model: can_assign of the container model (C03 R03.f: KnownValue / TypedValue / MultiValuedValue with the large-union "
+        "fast path / GenericValue / SequenceValue / TypedDictValue.can_assign interpreted from their AST) is applied to every (type, object) pair of its domain - among the "
+        "objects unhashable ones (lists, dicts, sets), among the types unions of ten or more literals - and no application raises",
+        floor=5,
+    )
+    procs = 2 if _os.environ.get("VERIF_SELFTEST") else min(16, _os.cpu_count() or 1)
+    with mp.get_context("fork").Pool(procs) as pl:
+        results = pl.map(_container_chunk, [(i, procs * 2) for i in range(procs * 2)])
+    total = 0
+    merged: Dict[str, Dict[str, object]] = {}
+    unsupported = []
+    for n, classes, uns in results:
+        total += n
+        unsupported += uns
+        for k, c in classes.items():
+            if not k.endswith("::no-crash"):
+                continue
+            mm = merged.setdefault(k, {"n": 0, "bad": []})
+            mm["n"] += c["n"]  # type: ignore[operator]
+            mm["bad"] += c["bad"]  # type: ignore[operator]
+    chk.model_evaluations += total
+    chk.analysed["value_api_totality"] = {"applications": total, "not_modelled": len(unsupported)}
+    site = prog.site("value", prog.find_method("MultiValuedValue", "can_assign")[1])  # type: ignore[index]
+    for k, c in sorted(merged.items()):
+        bad = sorted(c["bad"], key=lambda d: (len(d["type"]) + len(d["object"]), repr(d)))  # type: ignore[arg-type]
+        chk.ob("R12.9", f"value::can_assign-totality::{k}", not bad, site, f"{c['n']} applications, {len(bad)} raise" + (f"; smallest: {bad[0]}" if bad else ""), witness=bad[:5])
+    if unsupported:
+        raise AnchorError(f"{len(unsupported)} applications cannot be modelled; first: {unsupported[0]}")
+
+
+# ------------------------------------------------------------------- R12.10
+_LISTY_CALLS = {"list", "sorted", "dict", "set", "bytearray", "defaultdict"}
+
+
+def _is_unhashable_display(e: ast.AST) -> bool:
+    return isinstance(e, (ast.List, ast.ListComp, ast.Dict, ast.DictComp, ast.Set, ast.SetComp)) or (
+        isinstance(e, ast.Call) and isinstance(e.func, ast.Name) and e.func.id in _LISTY_CALLS
+    )
+
+
+def r12_10(prog: Program, chk: Check) -> None:
+    from .c14 import effective_eq_hash
+
+    chk.rule(
+        "R12.10",
+        "what is stored in a hashed field is hashable: a value class whose __hash__ is generated from its fields and whose __init__ is generated too (so arguments are stored as "
+        "given) is never constructed with a list / dict / set display, a comprehension of those kinds, list(...) / sorted(...) / dict(...) / set(...), or a local that only ever "
+        "holds such a value, in a field that takes part in the hash - hashing the value later (de-duplication of bounds, union members, cache keys) would raise TypeError. "
+        "Scope: the classes whose instances are hashed (Value, Bound, Extension and their subclasses)",
+        floor=20,
+    )
+    from .c14 import HASHABLE_EXTRA, HASHABLE_ROOTS
+
+    # the classes whose instances are hashed: union members, bounds (de-duplicated through dicts), extensions, cache keys
+    in_scope: Set[str] = set()
+    for root in HASHABLE_ROOTS:
+        in_scope.update(prog.subclasses(root))
+    in_scope.update(c for c in HASHABLE_EXTRA if c in prog.classes)
+    # classes of those families whose instances are never hashed (read at their use sites)
+    never_hashed = {
+        "CanAssignError": "an error tree is only rendered (str / display); nothing puts it into a set or uses it as a key",
+        "_ConstrainedValue": "internal to FunctionScope: stored as a dict *value* and resolved by _resolve_value before any union is built",
+    }
+    hashed: Dict[str, Tuple[List[str], Set[str]]] = {}
+    for cname, ci in prog.classes.items():
+        if cname not in in_scope or cname in never_hashed:
+            continue
+        if not ci.is_dataclass or "__init__" in ci.methods or any("__init__" in c.methods for c in prog.mro(cname) if c.name != cname and c.is_dataclass):
+            continue
+        try:
+            _, h = effective_eq_hash(prog, cname)
+        except Exception:
+            continue
+        if h.kind != "generated":
+            continue
+        order = [f.name for f in prog.all_fields(cname) if not f.is_classvar and getattr(f, "init", True) is not False]
+        hashed[cname] = (order, set(h.fields))
+    n = 0
+    for m, q, fn in prog.iter_functions():
+        local_assigns: Dict[str, List[ast.AST]] = {}
+        for node in walk_no_nested(fn):
+            if isinstance(node, ast.Assign) and len(node.targets) == 1 and isinstance(node.targets[0], ast.Name):
+                local_assigns.setdefault(node.targets[0].id, []).append(node.value)
+            elif isinstance(node, ast.AnnAssign) and isinstance(node.target, ast.Name) and node.value is not None:
+                local_assigns.setdefault(node.target.id, []).append(node.value)
+        params = {a.arg for a in fn.args.args + fn.args.kwonlyargs} if isinstance(fn, (ast.FunctionDef, ast.AsyncFunctionDef)) else set()
+
+        def unhashable(e: ast.AST) -> bool:
+            if _is_unhashable_display(e):
+                return True
+            if isinstance(e, ast.Name) and e.id in local_assigns and e.id not in params:
+                vals = [v for v in local_assigns[e.id] if not (isinstance(v, ast.Constant) and v.value is None)]
+                return bool(vals) and all(_is_unhashable_display(v) for v in vals)
+            return False
+
+        for node in walk_no_nested(fn):
+            if not (isinstance(node, ast.Call) and isinstance(node.func, ast.Name) and node.func.id in hashed):
+                continue
+            order, hfields = hashed[node.func.id]
+            bound: List[Tuple[str, ast.AST]] = []
+            for i, a in enumerate(node.args):
+                if isinstance(a, ast.Starred) or i >= len(order):
+                    break
+                bound.append((order[i], a))
+            bound += [(k.arg, k.value) for k in node.keywords if k.arg]
+            for fname, expr in bound:
+                if fname not in hfields:
+                    continue
+                n += 1
+                chk.ob(
+                    "R12.10",
+                    f"{m}::{q}::{node.func.id}({fname}=...)::{norm(expr)[:40]}",
+                    not unhashable(expr),
+                    prog.site(m, node),
+                    f"`{node.func.id}(... {fname}={norm(expr)[:50]} ...)` stores an unhashable container in a field that `{node.func.id}.__hash__` hashes: the first hash of the value raises TypeError",
+                )
+    chk.analysed["hashed_field_arguments"] = n
+
+
 _old_run = run
 
 
@@ -771,3 +899,5 @@ def run(prog: Program, chk: Check) -> None:  # noqa: F811
     guard(chk, r12_5, prog, chk)
     guard(chk, r12_7, prog, chk)
     guard(chk, r12_8, prog, chk)
+    guard(chk, r12_9, prog, chk)
+    guard(chk, r12_10, prog, chk)
